@@ -130,6 +130,7 @@ def execute(case):
     is_img = lambda p: any(p.endswith("/" + n) or p == n for n in names)  # noqa: E731
     is_index = lambda p: p.endswith(".index")  # noqa: E731
     with harness.Product(files, kind) as prod:
+        kind = prod.kind  # amcfs is observed like mcfs
         try:
             produced.clear()
             made = produce(prod, spec, files, producer, rpc_w, case.get("tag", "x"))
@@ -301,6 +302,9 @@ def plan(tier):
         for producer in ("option", "cli-adjacent", "cli-target"):
             for fs in ("mcfs", "local"):
                 cases.append({"level": level, "producer": producer, "fs": fs, "rpc_w": 2, "rpc_r": 3, "touch_images": True})
+    for level in levels:  # an async fsspec implementation (I/O is observed like on mcfs)
+        for producer in ("option", "cli-adjacent", "both"):
+            cases.append({"level": level, "producer": producer, "fs": "amcfs", "rpc_w": 2, "rpc_r": 3})
     for i, c in enumerate(cases):
         c["tag"] = str(i)
     return cases
